@@ -109,6 +109,22 @@ def check_angle(ctx, yc):
                 cls = rx.classes(pat)
             except Exception as e:
                 raise AnalysisError('C02: regex %r in yanny.%s does not parse: %s' % (pat, m, e))
+            # a bare literal bracket outside any class can never match the legacy angle form
+            def bare(items):
+                out = []
+                for it in items:
+                    if it[0] == 'LITERAL' and it[1] in (91, 93):
+                        out.append(chr(it[1]))
+                    elif it[0] in ('MAX_REPEAT', 'MIN_REPEAT'):
+                        out += bare(it[3])
+                    elif it[0] == 'BRANCH':
+                        for b in it[1]:
+                            out += bare(b)
+                return out
+            for ch in bare(rx.normal(pat)):
+                n += 1
+                ctx.fail('C02.ANGLE', f, c, 'regex in %s: %s' % (m, pat),
+                         'yanny.%s: regex %r matches a literal %r only, never the legacy %r array notation' % (m, pat, ch, '<' if ch == '[' else '>'))
             for k in cls:
                 neg, lits, cats, rng = k
                 if neg:
